@@ -8,7 +8,9 @@ A stage names a module of spec/ind/ and a tool:
        timeout=600, jobs=3)
       every obligation is one `apalache-mc check --cinit=.. --init=.. --inv=.. --length=..` run; an obligation with
       length 1 from IndInit is the induction step (or a one-step action property), length 0 from IndInit is
-      "IndInv => P", length 0 from Init is the base case.
+      "IndInv => P", length 0 from Init is the base case.  An obligation with expect="Error" is a non-vacuity probe: Apalache
+      MUST find a counterexample (e.g. to "Kind # \"stress\"" from IndInit), which shows that the hypotheses are satisfiable for
+      that convention (a --cinit predicate that mentions `C = v` anywhere silently binds the constant C in Apalache 0.58).
   dict(kind="ind", name="TTL-tlaps", tool="tlaps", module="TTLIndProofs", timeout=600, threads=16)
       `tlapm` must report "All N obligations proved".
   dict(kind="ind", name="TTL-ref", tool="tlc", module="TTLIndRef", cfg=["MC_TTLIndRef_closed.cfg", ...], workers=4)
@@ -81,7 +83,7 @@ def _apalache_one(st, ob, wd, timeout):
                     cti = fh.read()[-3000:]
                 break
     return dict(name=ob["name"], init=ob["init"], inv=ob["inv"], length=ob["length"], rc=rc, outcome=outcome, wall_s=round(wall, 1),
-                cti=cti, tail="\n".join(txt.splitlines()[-25:]))
+                expect=ob.get("expect", "NoError"), cti=cti, tail="\n".join(txt.splitlines()[-25:]))
 
 
 def _apalache(ctx, st, name, wd, timeout):
@@ -89,12 +91,18 @@ def _apalache(ctx, st, name, wd, timeout):
     with concurrent.futures.ThreadPoolExecutor(max_workers=st.get("jobs", 3)) as ex:
         res = list(ex.map(lambda ob: _apalache_one(st, ob, wd, timeout), obs))
     for r in res:
-        log(f"[{ctx.prop}] apalache {st['module']} {r['name']}: --init={r['init']} --inv={r['inv']} --length={r['length']}: {r['outcome']} rc={r['rc']} {r['wall_s']}s")
+        log(f"[{ctx.prop}] apalache {st['module']} {r['name']}: --init={r['init']} --inv={r['inv']} --length={r['length']}: {r['outcome']} "
+            f"(expected {r['expect']}) rc={r['rc']} {r['wall_s']}s")
     ctx.extra.setdefault("ind_runs", []).append(dict(stage=name, tool="apalache", module=st["module"],
-                                                     obligations=[{k: r[k] for k in ("name", "init", "inv", "length", "outcome", "wall_s")} for r in res]))
+                                                     obligations=[{k: r[k] for k in ("name", "init", "inv", "length", "outcome", "expect", "wall_s")} for r in res]))
     for r in res:
         if r["rc"] == 124 or r["rc"] == 137:
             raise CannotDecide(f"apalache stalled on {st['module']} obligation {r['name']} (time-out {timeout}s)")
+        if r["expect"] == "Error":
+            if r["outcome"] == "Error" and r["rc"] == 12:
+                continue
+            raise CannotDecide(f"apalache: non-vacuity probe {r['name']} of {st['module']} found no witness (outcome {r['outcome']}, rc={r['rc']}): "
+                               f"the hypotheses of the induction are unsatisfiable for that case, the other obligations prove nothing about it\n{r['tail']}")
         if r["outcome"] == "Error" or r["rc"] == 12:
             raise CannotDecide(f"apalache: counterexample to {st['module']} obligation {r['name']} (--init={r['init']} --inv={r['inv']} --length={r['length']}); "
                                f"a CTI is not a verdict about the code: the candidate invariant is too weak or the companion module is wrong\n{r['cti'] or r['tail']}")
@@ -103,19 +111,32 @@ def _apalache(ctx, st, name, wd, timeout):
 
 
 def _tlaps(ctx, st, name, wd, timeout):
-    cmd = ["tlapm", "--threads", str(st.get("threads", 16)), "--cleanfp"]
-    if st.get("stretch"):
-        cmd += ["--stretch", str(st["stretch"])]
-    cmd.append(st["module"] + ".tla")
-    rc, txt, wall = _run(cmd, wd, timeout)
-    m = re.search(r"All (\d+) obligations? proved", txt)
+    """tlapm from a clean fingerprint cache; backend time-outs are per obligation (5-30 s) and the machine is shared, so they are
+    stretched, and obligations that still fail are retried once (the cache keeps what was proved) with doubled time-outs."""
+    stretch = st.get("stretch", 3)
+    t0 = time.time()
+    rc, txt, m = None, "", None
+    for attempt in range(1 + st.get("retries", 1)):
+        cmd = ["tlapm", "--threads", str(st.get("threads", 16)), "--stretch", str(stretch * (attempt + 1))]
+        if attempt == 0:
+            cmd.append("--cleanfp")
+        cmd.append(st["module"] + ".tla")
+        left = timeout - (time.time() - t0)
+        if left < 30:
+            break
+        rc, txt, _ = _run(cmd, wd, int(left))
+        m = re.search(r"All (\d+) obligations? proved", txt)
+        if (rc == 0 and m) or rc in (124, 137):
+            break
+        log(f"[{ctx.prop}] tlapm {st['module']}: attempt {attempt + 1} left obligations unproved (rc={rc}), retrying those with longer backend time-outs")
+    wall = time.time() - t0
     n = int(m.group(1)) if m else 0
     log(f"[{ctx.prop}] tlapm {st['module']}: rc={rc} obligations proved={n if m else 'NOT ALL'} {wall:.1f}s")
     ctx.extra.setdefault("ind_runs", []).append(dict(stage=name, tool="tlaps", module=st["module"], proved=n, all_proved=bool(m), wall_s=round(wall, 1)))
     if rc in (124, 137):
         raise CannotDecide(f"tlapm stalled on {st['module']} (time-out {timeout}s)")
     if rc != 0 or not m:
-        bad = [ln for ln in txt.splitlines() if "ERROR" in ln or "obligations failed" in ln or "Could not prove" in ln]
+        bad = [ln for ln in txt.splitlines() if ln.startswith("File ") or "obligations failed" in ln]
         raise CannotDecide(f"tlapm did not prove every obligation of {st['module']}: rc={rc}\n" + "\n".join(bad[:20] or txt.splitlines()[-20:]))
 
 
